@@ -33,7 +33,7 @@ MAP = [  # (path prefix, checks in the order they are tried)
     ("dhcpv4/dhcpv4.go", V4CORE),
     ("dhcpv4/options.go", ["C01", "C04", "C07", "C17", "C06", "C03", "C08", "C09"]),
     ("dhcpv4/modifiers.go", ["C15", "C13", "C17"]),
-    ("dhcpv4/types.go", ["C17", "C20", "C03"]),
+    ("dhcpv4/types.go", ["C15", "C10", "C13", "C17", "C20", "C03"]),
     ("dhcpv4/option_", ["C17", "C15", "C07", "C20", "C03", "C06"]),
     ("dhcpv4/nclient4/client.go", ["C12", "C13", "C11", "C10"]),
     ("dhcpv4/nclient4/lease.go", ["C13"]),
